@@ -385,4 +385,19 @@ theorem step_mono (c : Cfg) (s s' : Sys) (op : Op) (ok : PgOK s.pg) (h : step c 
         obtain ⟨_, _, hm, hok⟩ := allocate_spec c s.pg pg' p ok ha
         exact put p _ (by rw [claim_pg]; exact hok) (by rw [claim_pg]; exact hm q hq) h
 
+/-- **allocation is monotone over histories**: along any history outside the trigger no bitmap bit is
+    ever cleared — a page handed to a structure is never handed out again -/
+theorem run_mono (c : Cfg) : ∀ (ops : List Op) (s : Sys), Inv s → (run c s ops).2 = false →
+    ∀ p, p ∈ s.pg.bits → p ∈ (run c s ops).1.pg.bits
+  | [], _, _, _, _, hp => hp
+  | op :: ops, s, inv, h, p, hp => by
+    simp only [run, Bool.or_eq_false_iff] at h ⊢
+    cases hs : step c s op with
+    | error e =>
+      simp only [hs] at h ⊢
+      exact run_mono c ops s inv h.2 p hp
+    | ok s1 =>
+      simp only [hs] at h ⊢
+      exact run_mono c ops s1 (step_ok c s s1 op inv h.1 hs).inv h.2 p (step_mono c s s1 op inv.pg hs p hp)
+
 end Nervus.Pager
